@@ -571,7 +571,7 @@ class C01(Check):
             cases.append(['@' + fl, 'sel 1', 'ins 1 1', 'sel 0', 'copy', 'bulk', 'copyc', 'sel 1', 'bulk', 'bulk', 'copy', 'clear', 'sel 0', 'copy'])
         out.append(Stream('boundary', cases))
         # profile streams
-        reps = 10 if thorough else 2
+        reps = 20 if thorough else 2
         for prof in PROFILES:
             cases = []
             for multi in (False, True):
